@@ -43,7 +43,8 @@ def add_depth(r, c, mesh, sref, exact, quick):
     else:
         depth = ratio * sref
         dtag = f"dz/s={ratio}"
-    if exact or r.random() < 0.6:
+    # (with dx omitted the window comes from the data; dz must still be read in its own unit: drawn in another unit more often)
+    if (exact and c.get("dx") is not None) or r.random() < (0.35 if c.get("dx") is None else 0.6):
         c["dz"] = {"v": float(depth / den), "unit": "cm"}
     else:
         u = r.choice(["m", "au", "mm"])
